@@ -43,6 +43,25 @@ Theorem C18_constant_window : forall N thr h c x, (0 < N)%nat -> 0 <= thr ->
 Proof. exact hampel_constant_window. Qed.
 Print Assumptions C18_constant_window.
 
+(* amplitude and offset do not matter: for c > 0 the filter commutes with x |-> c * x + d, at the first sample and at every
+   later one (so whatever depends on the amplitude in an f32 / f64 instance is overflow or underflow of an intermediate
+   product, not the filter; the differential runs rescale their integer-valued cases by powers of two on this ground) *)
+From Signalo Require Proofs.HampelScale.
+Theorem C18_affine_equivariant : forall N thr c d h p x, (0 < N)%nat -> 0 < c ->
+  exists s s' o t t',
+    oexec (hampel_step thr) (init N) (h ++ [p]) = Some s /\ hampel_step thr s x = Some (s', o) /\
+    oexec (hampel_step thr) (init N) (map (Signalo.Proofs.HampelScale.aff c d) (h ++ [p])) = Some t /\
+    hampel_step thr t (Signalo.Proofs.HampelScale.aff c d x) = Some (t', Signalo.Proofs.HampelScale.aff c d o).
+Proof. exact Signalo.Proofs.HampelScale.hampel_affine_equivariant. Qed.
+Print Assumptions C18_affine_equivariant.
+Theorem C18_affine_first : forall N thr c d x, (0 < N)%nat ->
+  exists s' t', hampel_step thr (init N) x = Some (s', x) /\
+    hampel_step thr (init N) (Signalo.Proofs.HampelScale.aff c d x) = Some (t', Signalo.Proofs.HampelScale.aff c d x).
+Proof. exact Signalo.Proofs.HampelScale.hampel_affine_first. Qed.
+Print Assumptions C18_affine_first.
+Example C18_aff_is_affine : Signalo.Proofs.HampelScale.aff (Q2Qc 2) (Q2Qc 3) (Q2Qc 5) = Q2Qc 13.
+Proof. apply Qc_is_canon. reflexivity. Qed.
+
 (* ---- the generic (float / integer) model of the bit-exact stream, instantiated at the rationals, is the model above ---- *)
 From Signalo Require Base.Arith Model.Generic Proofs.Generic.
 Theorem C18_generic_hampel : forall thr s x, Signalo.Model.Generic.g_hampel_step Signalo.Proofs.Generic.Qcar Signalo.Model.Hampel.mad_factor thr s x = Signalo.Model.Hampel.hampel_step thr s x.
